@@ -301,9 +301,9 @@ func mergedHeadsDeps(c *Ctx, r *Report, rule string, join *Fn) {
 		for _, need := range []string{"destination heads", "source heads", "predecessor links of the new items", "destination predecessor/entry index"} {
 			r.Check(dep[need], rule, r.Key(rule, join, "heads-depend-on", need), st.Pos(),
 				"the merged head set depends on the "+need, "the head set stored by the merge does not depend on the "+need+": "+map[string]string{
-					"destination heads":                    "the destination's own heads are lost",
-					"source heads":                         "the source's heads never become heads",
-					"predecessor links of the new items":   "an old head named by a merged entry stays a head (heads then depend on merge order)",
+					"destination heads":                   "the destination's own heads are lost",
+					"source heads":                        "the source's heads never become heads",
+					"predecessor links of the new items":  "an old head named by a merged entry stays a head (heads then depend on merge order)",
 					"destination predecessor/entry index": "a source head that the destination already extends becomes a spurious head (heads then depend on merge order)",
 				}[need])
 		}
